@@ -278,6 +278,47 @@ def case_sidereal(mon, j, do_eq=True):
               key_eqeq(j, diff_s))
 
 
+def case_wrap(mon, j0):
+    """The instant at which the mean sidereal time wraps from just under 1
+    to 0, bisected down to adjacent floats after JDE j0: the last value
+    before the wrap is the one closest to 1 that the function can produce,
+    the place where a result rounded to the nearest would come out as 1.0."""
+    from pymeeus.Epoch import Epoch
+
+    def mst(j):
+        return Epoch(j).mean_sidereal_time()
+    a = j0
+    try:
+        va = mst(a)
+        if va <= 0.0975:
+            a += 0.2
+            va = mst(a)
+        lo, hi = a, a + 0.9
+        for _ in range(80):
+            mid = 0.5 * (lo + hi)
+            if mid <= lo or mid >= hi:
+                break
+            if mst(mid) >= va:
+                lo = mid
+            else:
+                hi = mid
+        pts = [lo, hi, math.nextafter(lo, 0.0), math.nextafter(hi, 1e9)]
+        vals = [(j, mst(j)) for j in pts]
+    except Exception as ex:
+        mon.dev("gmst.range", {"jde": j0, "raised": repr(ex)})
+        return
+    mon.evals += 4
+    mon.cls("sidereal-day-wrap", ("wrap", lo), [lo, hi])
+    for j, th in vals:
+        # Epoch(j) may re-derive the JDE one ulp off: judge at its own JDE
+        je = Epoch(j).jde()
+        mon.check("gmst.range", isinstance(th, float) and 0.0 <= th < 1.0,
+                  {"jde": j, "gmst": th, "at": "sidereal-day wrap"})
+        mon.check("gmst==IAU1982", circ(th, gmst_iau1982(je)) <= 1e-7,
+                  {"jde": j, "gmst": th, "iau1982": gmst_iau1982(je)})
+    mon.stat("closest_to_1_seen", max(v for _j, v in vals), lo)
+
+
 def key_eqeq(j, diff_s):
     """The IAU 1980 series' secular coefficients (-171996 - 174.2 T) grow the
     18.6-year amplitude past 1.2 s once T > ~38 centuries."""
@@ -292,7 +333,8 @@ def _objhistory(mon, sv):
     _c02.case_objhistory(mon, sv)
 
 
-CASES = {"objhistory": _objhistory, "history": history.case, "year": case_year, "sidereal": case_sidereal}
+CASES = {"objhistory": _objhistory, "history": history.case, "year": case_year, "sidereal": case_sidereal,
+         "wrap": case_wrap}
 
 
 def gen_jde(rng):
@@ -329,6 +371,14 @@ def run(mon, spec):
             case_year(mon, y)
     else:
         rng = random.Random(spec["seed"] * 1000003 + spec["idx"])
+        # sidereal-day wraps: small JDEs first (floats 1e-13 apart: the wrap
+        # is resolved to a few 1e-13 of a turn), then days anywhere
+        for k in range(max(300, spec["n"] // 40)):
+            jw = float(rng.randrange(0, 3000)) if k % 2 == 0 else \
+                float(rng.randrange(0, 5400000))
+            jw += rng.random()
+            mon.begin("wrap", [jw])
+            case_wrap(mon, jw)
         for _ in range(spec["n"]):
             j = gen_jde(rng)
             do_eq = rng.random() < 0.25
